@@ -29,7 +29,7 @@ CHECKS = {
              note="trusts the 30-line sparse-array model and the reading that an empty chunk may raise or not; Fragments is imported from a snapshot of /repo's working tree"),
  "C17": dict(engine="histsim-auto", section="3 (C17)",
              technique="deterministic simulation: seeded search over per-instance operation histories (set/delete/construct/unpack/pack incl. failing packs) against an {explicit, tracked} reference model, choice-sequence shrinking, exact replay",
-             text="Seeded search over histories of NEW/SET_TRACKED/SET_DESCRIBED/DEL/READ/PACK/UNPACK/REPARSE on 1-3 live packets of freshly defined classes (six declarations x generated/generic x vectorize), compared after every operation with a two-field model; the only fault this component can suffer (pack failing after the pre-pack sync ran) is generated deliberately. Exploration, not the exhaustive enumeration the quantifier mentions.",
+             text="Seeded search over histories of NEW/SET_TRACKED/SET_DESCRIBED/DEL/READ/PACK/UNPACK/REPARSE on 1-6 live packets of freshly defined classes (13 declarations incl. nested, element, chained, recursive and prototype-inherited described fields x six code-generation option sets), compared after every operation with the reference model; the only fault this component can suffer (pack failing after the pre-pack sync ran) is generated deliberately. Exploration, not the exhaustive enumeration the quantifier mentions.",
              note="trusts the reference model of Auto semantics (reads explicit value if set else computed; pack serialises what reads); class definitions go through the real metaclass and code generator into a scratch directory"),
  "C13": dict(engine="threadsim", section="3 (C13)",
              technique="deterministic simulation: baton-passed real threads pre-empted at sys.settrace line/opcode events under a seeded scheduler, differential replay against solo twins, aliasing and purity invariants, choice-sequence shrinking, exact replay",
@@ -37,7 +37,7 @@ CHECKS = {
              note="trusts sys.settrace pre-emption points as the granularity of interleaving (line in quick, opcode in part of thorough); the GIL makes single bytecodes atomic, which is also true of real CPython threads"),
  "C15": dict(engine="cachesim-seq", section="3 (C15)",
              technique="deterministic simulation: simulated processes (private module tables) over a real scratch directory behind a file-system interposer with a simulated storage clock; seeded histories of definitions/edits/clock steps/janitor actions; differential oracle against a clean twin plus code-identity invariant; exact replay",
-             text="Histories (<=8 steps) of DEFINE/EDIT/TICK/JANITOR over a family of 14 confusable same-named declarations, in fresh and surviving simulated processes, with bytecode caching on or off and mtime ties/steps decided by the scheduler. After every definition each live class must behave and carry code identical to the same declaration defined on an empty cache. Exploration over seeds.",
+             text="Histories (<=8 steps) of DEFINE/EDIT/TICK/JANITOR over a family of 17 confusable same-named declarations, in fresh and surviving simulated processes, with bytecode caching on or off and mtime ties/steps decided by the scheduler. After every definition each live class must behave and carry code identical to the same declaration defined on an empty cache. Exploration over seeds.",
              note="process boundary, pid and mtime clock are stubs (threads + private sys.modules overlays, utime-stamped simulated clock); CPython's import machinery, the kernel's tmpfs and all of bisturi are real; fidelity cross-checked against real python processes in the thorough tier"),
  "C16": dict(engine="cachesim-conc", section="3 (C16)",
              technique="deterministic simulation with fault injection: 2-3 simulated processes interleaved at every file-system call by a seeded scheduler, process death before any call and after any byte prefix of a write, simulated storage clock; differential oracle against a clean twin plus code-identity invariant; crash points of the sequential update enumerated exhaustively in the thorough tier; exact replay",
